@@ -559,8 +559,15 @@ def check_C19():
     tlc_must_pass(em, "Cli.tla emitter")
     pm = 40 if tier() == "quick" else 120
     rc, rep = harness_run(vh, ["cli-replay", em["out"], "@REPORT", car, "seed=%d" % seed(), "permille=%d" % pm], timeout=3400)
+    # filter in depth: longer archives with repeated blocks, every selection, no sampling
+    emf = run_tlc("MCCli", "Cli_F_emit.cfg", timeout=2400)
+    tlc_must_pass(emf, "Cli.tla emitter (filter config)")
+    rcf, repf = harness_run(vh, ["cli-replay", emf["out"], "@REPORT", car, "only=filter", "permille=%d" % (250 if tier() == "quick" else 1000), "seed=%d" % seed()], timeout=3400)
+    rep["evaluations"] += repf["evaluations"]
+    rep["distinct_nontrivial"] += repf["distinct_nontrivial"]
+    rep["violations"] = (rep["violations"] or []) + (repf["violations"] or [])
     cov = {"evaluations": rep["evaluations"], "distinct_nontrivial": rep["distinct_nontrivial"], "states": model["distinct"], "transitions": model["states"],
-           "rule": "every archive of <= %d sections over 7 blocks (same multihash/other codec, CIDv0, identity, varint-boundary lengths, duplicates) x 3 root lists x {CARv1, CARv2+mh index, CARv2 padded + sorted "
+           "rule": "(plus car filter / --append with every selection of <= 2 CIDs on archives of <= 4 sections over 3 blocks with repetitions) every archive of <= %d sections over 7 blocks (same multihash/other codec, CIDv0, identity, varint-boundary lengths, duplicates) x 3 root lists x {CARv1, CARv2+mh index, CARv2 padded + sorted "
                    "index, CARv2 padded index-less}: car list, car index x {both codecs, none} x {v1,v2}, car index create x 2 codecs, car detach-index, car get-block for 7 CIDs, car concat (v1 and the "
                    "known-broken v2), car get-dag x {v1,v2}, and a seeded %d permille sample of car filter x {<= 2 selected CIDs, inverse, v1/v2} and filter --append; outputs are compared byte-for-byte with "
                    "the reference encoding of the archive Cli.tla gives (index: record multiset between the regenerated index without / with identity CIDs), and every emitted archive is given to "
